@@ -87,9 +87,9 @@ SWord(n) == IF n = 1 THEN SBit ELSE LET h == SWord(n \div 2) IN SProd(h, h)
 
 \* "the right part holds the largest power of two strictly below n elements"
 LargestPow2BelowDef(n) == CHOOSE p \in 1..(n - 1) : IsPow2(p) /\ 2 * p >= n
-\* (the definition above, tabulated once: it is used at every node of every balanced tree)
-LPBTable == TLCEval([n \in 2..600 |-> LargestPow2BelowDef(n)])
-LargestPow2Below(n) == IF n <= 600 THEN LPBTable[n] ELSE LargestPow2BelowDef(n)
+\* (the definition above in closed form: it is used at every node of every balanced tree; MC_LayoutMachines
+\* ASSUMEs that the two agree for 2..600)
+LargestPow2Below(n) == Pow2(Log2(n - 1))
 
 \* One balanced-tree builder for the four kinds of tree that use the layout:
 \* structural types, structural values, base patterns and Simplicity terms.
